@@ -252,12 +252,39 @@ pub fn run(rt: &tokio::runtime::Runtime, cols: &[&str]) -> Value {
                             Some(Ok(v2)) => (true, serde_json::to_value(&v2).ok() == Some(j.clone()), v2.to_swift_string() == ser),
                             _ => (false, false, false),
                         };
-                        json!({"ok": true, "ser": ser, "json": j, "printed": body, "variant_tag": v.get_variant_tag(), "debug": format!("{:?}", v),
+                        // JSON round trip of the field value (serde_json::Value level)
+                        let json_rt = match serde_json::from_value::<T>(j.clone()) {
+                            Ok(v3) => serde_json::to_value(&v3).ok() == Some(j.clone()) && v3.to_swift_string() == ser,
+                            Err(_) => false,
+                        };
+                        json!({"ok": true, "ser": ser, "json": j, "printed": body, "variant_tag": v.get_variant_tag(), "debug": format!("{:?}", v), "json_rt": json_rt,
                                "again_ok": again_ok, "again_equal": again_eq, "again_ser_equal": again_ser})
                     }
                     Err(e) => err_json(&e),
                 }
             }, json!({"bad_case": format!("unknown field type {}", cols[1])}))
+        }
+        // amount <hex text>: swift_utils::parse_amount, the f64's bits, format_swift_amount for 0..4 decimals
+        "amount" => {
+            let t = unhex_str(cols[1]).unwrap_or_default();
+            match swift_mt_message::fields::swift_utils::parse_amount(&t) {
+                Ok(a) => {
+                    let f: Vec<String> = (0..5).map(|k| swift_mt_message::fields::swift_utils::format_swift_amount(a, k)).collect();
+                    json!({"ok": true, "bits": a.to_bits().to_string(), "fmt": f.join("|"), "finite": a.is_finite(), "nonneg": a >= 0.0,
+                           "json": serde_json::to_value(a).unwrap_or(Value::Null)})
+                }
+                Err(e) => err_json(&e),
+            }
+        }
+        // amountc <hex text> <hex currency>: parse_amount_with_currency
+        "amountc" => {
+            let t = unhex_str(cols[1]).unwrap_or_default();
+            let c = unhex_str(cols[2]).unwrap_or_default();
+            match swift_mt_message::fields::swift_utils::parse_amount_with_currency(&t, &c) {
+                Ok(a) => json!({"ok": true, "bits": a.to_bits().to_string(), "decimals": swift_mt_message::fields::swift_utils::get_currency_decimals(&c),
+                                "fmt": swift_mt_message::fields::swift_utils::format_swift_amount_for_currency(a, &c)}),
+                Err(e) => err_json(&e),
+            }
         }
         // fjson <FieldType> <hex json text>: serde_json::from_value::<T>
         "fjson" => {
